@@ -53,10 +53,24 @@ def variant(kind, rng, mode, axi):
             b0.update(A_0=1e-3, A_1=2e-3, A_2=-1e-3)
         elif mode == "src":
             p.blockprops[p.labels[0]["block"]]["J_re"] = 1.5
-        else:
+        elif mode == "cur":
             p.circprops = [dict(name="coil", I_re=10.0, type=1)]
             p.labels[0]["circ"] = 0
             p.labels[0]["turns"] = 5
+        else:
+            # mutual coupling: a driven stranded coil and a solid one-turn conductor carrying exactly 0 A whose flux
+            # linkage is read back (the usual way to obtain a mutual inductance)
+            p.circprops = [dict(name="ring", I_re=0.0, type=1), dict(name="coil", I_re=10.0, type=1)]
+            p.labels[0]["circ"] = 1
+            p.labels[0]["turns"] = 5
+            other = 1 if len(p.labels) > 1 else 0
+            p.labels[other]["circ"] = 0
+            p.labels[other]["turns"] = 1
+            p.blockprops[p.labels[other]["block"]]["Sigma"] = 58.0
+            if p.labels[other]["block"] == p.labels[0]["block"]:
+                p.blockprops.append(dict(p.blockprops[p.labels[other]["block"]], name="cu"))
+                p.labels[other]["block"] = len(p.blockprops) - 1
+                p.blockprops[p.labels[0]["block"]].pop("Sigma", None)
     else:
         vkey = "Vs" if kind == "e" else "Tset"
         b0[vkey] = 0.0
@@ -84,6 +98,7 @@ LAWS = {
     ("m", "bc"): dict(value=0, field=-1, energy=1, terminal=None),
     ("m", "src"): dict(value=2, field=1, energy=5, terminal=None),
     ("m", "cur"): dict(value=0, field=-1, energy=1, terminal=1),
+    ("m", "mut"): dict(value=0, field=-1, energy=1, terminal=1),
 }
 
 
@@ -106,7 +121,7 @@ def main(argv):
     rng = ck.rng
     stats = dict(variants=0, unit_runs=0, quantities_compared=0, worst_relative_deviation=0.0, by_physics={})
     combos = [("e", "bc", False), ("e", "src", True), ("h", "bc", True), ("h", "src", False), ("m", "bc", False), ("m", "src", False),
-              ("m", "cur", False), ("e", "bc", True), ("m", "bc", "harmonic")]
+              ("m", "cur", False), ("e", "bc", True), ("m", "bc", "harmonic"), ("m", "mut", True), ("m", "mut", False), ("m", "src", True)]
     if ck.tier == "thorough":
         combos = combos * 4
     try:
@@ -115,7 +130,10 @@ def main(argv):
             base = variant(kind, rng, mode, axi is True)
             if harmonic:
                 base.freq = 60.0
-            law = LAWS[(kind, mode)]
+            law = dict(LAWS[(kind, mode)])
+            if kind == "m" and axi is True:
+                # the axisymmetric magnetics solution file and point values carry the flux 2*pi*r*A, one power of length more
+                law["value"] += 1
             stats["variants"] += 1
             stats["by_physics"][kind] = stats["by_physics"].get(kind, 0) + 1
             ck.case((kind, mode, str(axi), t), nontrivial=True, sample=dict(physics=kind, mode=mode, axisymmetric=axi is True, harmonic=harmonic,
@@ -133,6 +151,11 @@ def main(argv):
                     results = None
                     break
                 sol = femmio.read_solution(run.solution_path(), kind)
+                if any(n[2] != n[2] for n in sol["nodes"]):
+                    ck.violation("nan-solution:%s:%s:%s" % (kind, "axi" if axi is True else "planar", unit),
+                                 "the solver wrote NaN potentials (and exit status 0) for the drawing declared in %s" % unit, dict(files=run.files()))
+                    results[unit] = None
+                    continue
                 s = lua_post.Session(kind, "p" + femmio.EXT[kind], analyze=False)
                 for i, (x, y) in enumerate(probe):
                     s.point("pt%d" % i, x, y)
@@ -153,11 +176,11 @@ def main(argv):
                     results = None
                     break
                 results[unit] = dict(mesh={e: open(run.snap(e), "rb").read() for e in (".node", ".ele", ".edge")}, sol=sol, post=out, run=run)
-            if not results:
+            if not results or not results.get("meters"):
                 continue
             ref = results["meters"]
             for unit in UNITS:
-                if unit == "meters":
+                if unit == "meters" or not results.get(unit):
                     continue
                 r = results[unit]
                 sfac = UNIT_M[unit]
@@ -182,7 +205,8 @@ def main(argv):
                         return
                     stats["worst_relative_deviation"] = max(stats["worst_relative_deviation"], dev)
                     if dev > 1e-6:
-                        ck.violation("scaling:%s:%s:%s" % (kind, mode, name.split("[")[0]),
+                        ck.violation("nan-solution:m:axi:microns" if (kind == "m" and axi is True and unit == "microns") else
+                                     "scaling:%s:%s:%s" % (kind, mode, name.split("[")[0]),
                                      "%s in %s is %.9g, the scaling law (x s^%s, s=%g) from the metres run gives %.9g" % (name, unit, got, k, sfac, exp),
                                      dict(physics=kind, mode=mode, unit=unit, quantity=name, got=got, expected=exp, files=r["run"].files()))
                 # nodal values (same renumbering because the mesh is identical)
@@ -192,7 +216,8 @@ def main(argv):
                 stats["quantities_compared"] += 1
                 stats["worst_relative_deviation"] = max(stats["worst_relative_deviation"], worst)
                 if worst > 1e-6:
-                    ck.violation("scaling:%s:%s:nodal" % (kind, mode), "nodal values in %s deviate from the scaling law (x s^%d) by %.3g" % (unit, law["value"], worst),
+                    ck.violation("nan-solution:m:axi:microns" if (kind == "m" and axi is True and unit == "microns") else
+                                 "scaling:%s:%s:nodal" % (kind, mode), "nodal values in %s deviate from the scaling law (x s^%d) by %.3g" % (unit, law["value"], worst),
                                  dict(physics=kind, mode=mode, unit=unit, files=r["run"].files()))
                     continue
                 po, pr = r["post"], ref["post"]
@@ -214,6 +239,10 @@ def main(argv):
                 cmpq("volume", po["vol"][0], pr["vol"][0], 3)
                 if "term" in po and "term" in pr and law["terminal"] is not None:
                     idx = 1 if kind in "eh" else 2       # charge / heat flow ; flux linkage
+                    if len(po["term"]) <= idx or len(pr["term"]) <= idx or po["term"][idx] is None or pr["term"][idx] is None:
+                        ck.violation("terminal-missing:%s:%s" % (kind, mode), "the conductor / circuit property query returned %r (metres: %r)" % (po["term"], pr["term"]),
+                                     dict(physics=kind, mode=mode, unit=unit, files=r["run"].files()))
+                        continue
                     ga, gb = po["term"][idx], pr["term"][idx]
                     if isinstance(ga, complex):
                         ga, gb = abs(ga), abs(gb)
